@@ -150,7 +150,7 @@ def same_arr(a, b):
     return st, (f"element {ba!r} instead of {B.body!r} {why}" if st != HOLDS else "")
 
 
-def check_call_roles(ctx, rule, construct, where, call, iscsd, fam, exp):
+def check_call_roles(ctx, rule, construct, where, call, iscsd, fam, exp, only=None):
     """exp: dict role -> expected value (x1,x2,starts,L,w,omega,Q)."""
     key, args, kwargs, node = call
     roles = ["x1"] + (["x2"] if iscsd else []) + ["starts", "L", "w", "omega"] + (["Q"] if fam == "poly" else [])
@@ -158,6 +158,7 @@ def check_call_roles(ctx, rule, construct, where, call, iscsd, fam, exp):
         ctx.violated(rule, construct, f"kernel called with {len(args)} positional and {len(kwargs)} keyword arguments, roles {roles} expected", where); return
     choose = exp.get("choose")
     for role, a in zip(roles, args):
+        if only is not None and role not in only: continue      # the calling property speaks about these argument roles only
         want = exp[role]
         c = f"{construct}[{role}]"
         if choose is not None: a = select(a, choose)
@@ -213,7 +214,7 @@ def run_single(repo, order, iscsd, backend, kaiser, use_L):
     return R, r
 
 
-def check_dispatch(ctx, rule_prefix="R", orders=ORDERS, want_roles=True, kaisers=(True, False)):
+def check_dispatch(ctx, rule_prefix="R", orders=ORDERS, want_roles=True, kaisers=(True, False), roles=None):
     """R1 dispatch correctness for both dispatchers + R2/R3/R4 argument roles."""
     setup()
     repo = ctx.repo
@@ -261,7 +262,7 @@ def check_dispatch(ctx, rule_prefix="R", orders=ORDERS, want_roles=True, kaisers
                             exp = single_expectations(iscsd, fam, kaiser, order, disp == "single")
                         if exp is None:
                             ctx.unknown(f"{rule_prefix}2-argument-roles", construct, "cannot recover the bin index of the call", cw); continue
-                        check_call_roles(ctx, f"{rule_prefix}2-argument-roles", construct, cw, call, iscsd, fam, exp)
+                        check_call_roles(ctx, f"{rule_prefix}2-argument-roles", construct, cw, call, iscsd, fam, exp, only=roles)
     missing = [n for k, n in sites.items() if k not in reached]
     for n in missing:
         ctx.notes.append(f"kernel call site at speckit/analysis.py:{n.lineno} is reached by no configuration (dead code)")
@@ -430,10 +431,10 @@ class _FnInfo:
 MODULE_NAMES = {"np", "_np", "numpy", "math", "time", "_time", "logging", "cuda", "types", "signal", "sp", "pd", "ct"}
 
 
-def check_cache_keys(ctx, rule="R5-cache-key"):
+def check_cache_keys(ctx, rule="R5-cache-key", about=None):
     """every memo dictionary is keyed by everything its cached value depends on (and that can vary during its lifetime)."""
     repo = ctx.repo
-    found = 0
+    found = 0; matched = 0
     for rel in ("speckit/analysis.py", "speckit/core.py", "speckit/core_cuda.py", "speckit/schedulers.py", "speckit/utils.py"):
         if rel not in repo.mods: continue
         mod = repo.module(rel)
@@ -513,6 +514,11 @@ def check_cache_keys(ctx, rule="R5-cache-key"):
                     varying = {d for d in deps if d in info.loop_assigned}
                 missing = sorted(d for d in varying if d not in knames and not d.startswith("self._"))
                 construct = f"{key}[{cname}[{ast.unparse(keyexpr)}]]"
+                low = (cname + " " + key.split("::")[1]).lower()
+                kind = "window" if (deps & {"win_func", "alpha", "np_kaiser", "sp_kaiser", "psll", "win"} or "win" in low) else \
+                       "basis" if ("order" in deps or "_q" in low or "basis" in low or low.startswith("q")) else "other"
+                if about is not None and kind not in about: continue
+                matched += 1
                 where = f"{rel}:{stn.lineno}"
                 if missing:
                     ctx.violated(rule, construct, f"cached value depends on {sorted(deps)} but the {scope} cache is keyed by {sorted(knames)} only: "
@@ -520,6 +526,7 @@ def check_cache_keys(ctx, rule="R5-cache-key"):
                 else:
                     ctx.holds(rule, construct, f"{scope} cache; value depends on {sorted(deps)}, key covers the varying ones", where)
     ctx.need("memoisation dictionaries", found, 2)
+    if about is not None: ctx.need(f"memoisation dictionaries about {'/'.join(about)}", matched, 1)
 
 
 def _own_nodes(fn):
@@ -781,7 +788,8 @@ def check_single_fields(ctx, rule="R8-single-bin"):
 
 
 # ---------------------------------------------------------------------------- R4 window configuration
-def check_window_config(ctx, rule="R4-window-config"):
+def check_window_config(ctx, rule="R4-window-config", overlap=True):
+    """overlap=False: only the Kaiser shape clauses (alpha, window function), for properties that do not speak about the overlap."""
     repo = ctx.repo
     fkey = AN + "._process_window_config"; fn = repo.get(fkey); ctx.analysed(fkey)
     where = repo.where(fkey, fn)
@@ -800,8 +808,10 @@ def check_window_config(ctx, rule="R4-window-config"):
         else: ctx.ob(rule, c + "[alpha]", UNKNOWN if is_opaque(a) or isinstance(a, PV) else VIOLATED, f"alpha is {a!r}", where)
         ok = isinstance(wf, Lib) and wf.name in ("numpy.kaiser", "scipy.signal.windows.kaiser")
         (ctx.holds if ok else ctx.violated)(rule, c + "[win_func]", "" if ok else f"window function resolved to {wf!r}", where)
+        if not overlap: continue
         if isinstance(ol, X): ctx.compare(rule, c + "[olap]", ol, mk_fn("kaiser_rov", [want], "pos"), where, detail="default overlap is kaiser_rov(alpha)")
         else: ctx.ob(rule, c + "[olap]", UNKNOWN, f"default overlap is {ol!r}", where)
+    if not overlap: return
     # an explicit overlap is used as given (0 included)
     for val, label in ((X.const(0), "0.0"), (X.var("olap"), "olap")):
         R = Run(repo, "numba")
